@@ -211,28 +211,41 @@ def _continuation(cj, cb):
 
 
 def _only_handed_on(cj, cb):
+    """the call's result is never looked INTO by the caller: no discriminant read, no projection, no `?` - it is only moved
+    whole (into a call, an aggregate or, one hop, another local that is treated the same way)"""
     dest = cj["blocks"][cb]["t"]["dest"]
     if dest.get("p"):
         return False
-    l = dest["l"]
-    uses = 0
+    watch = {dest["l"]}
+    for _hop in range(2):
+        for bl in cj["blocks"]:
+            for s_ in bl.get("s", []):
+                if s_["k"] == "assign" and s_["rv"]["k"] == "use" and s_["rv"]["op"].get("k") in ("move", "copy") and s_["rv"]["op"]["pl"]["l"] in watch and not s_["rv"]["op"]["pl"].get("p") and not s_["pl"].get("p"):
+                    watch.add(s_["pl"]["l"])
     for bl in cj["blocks"]:
         for s_ in bl.get("s", []):
             if s_["k"] != "assign":
                 continue
-            txt = repr(s_["rv"])
-            if ("'l': %d," % l) in txt or ("'l': %d}" % l) in txt:
+            rv = s_["rv"]
+            if rv["k"] in ("discr", "ref", "rawptr") and rv["pl"]["l"] in watch:
                 return False
+            for key in ("op", "a", "b"):
+                o = rv.get(key)
+                if isinstance(o, dict) and o.get("k") in ("move", "copy") and o["pl"]["l"] in watch and o["pl"].get("p"):
+                    return False
+            for o in rv.get("ops", []) or []:
+                if o.get("k") in ("move", "copy") and o["pl"]["l"] in watch and o["pl"].get("p"):
+                    return False
         tt = bl["t"]
-        if tt["k"] == "switch" and tt["d"].get("pl", {}).get("l") == l:
+        if tt["k"] == "switch" and tt["d"].get("pl", {}).get("l") in watch:
             return False
         if tt["k"] == "call":
+            c = tt.get("callee") or ""
             for a in tt["args"]:
-                if a.get("k") in ("move", "copy") and a["pl"]["l"] == l:
-                    if a["pl"].get("p"):
+                if a.get("k") in ("move", "copy") and a["pl"]["l"] in watch:
+                    if a["pl"].get("p") or c.endswith("Try>::branch") or c.startswith(("core::option::Option", "core::result::Result")):
                         return False
-                    uses += 1
-    return uses == 1
+    return True
 
 
 def thread_plan(cj, cb, hj):
